@@ -61,7 +61,7 @@ func runC16(res *vh.Result) {
 		"reference parser / packed-form decoder are harness code written from the grammar in the property statement and the gtp5g attribute layout",
 		"'any'/'assigned' are sent as all-zero 16-octet address attributes; only their first 4 octets are compared",
 	}
-	ncases := vh.Tiered(40, 3000)
+	ncases := vh.Tiered(80, 4000)
 	per := 500
 	res.Cases(ncases, func(ci int, rng *vh.Rng) {
 		wg := &sync.WaitGroup{}
